@@ -11,6 +11,11 @@ props = {}
 for l in open('/verif/properties.jsonl'):
     d = json.loads(l); props[d['id']] = d
 ids = [p for p in props if p not in ('C14',) and (not only or p in only)]
+import glob, os
+done = {}
+for d in sorted(glob.glob('/verif/refactorings/*/')):
+    name = os.path.basename(d.rstrip('/'))
+    done.setdefault(name.split('-')[0], []).append(name.split('-', 1)[1].replace('-', ' '))
 for pid in ids:
     d = props[pid]
     W = "/tmp/ref%s_%s" % (r, pid)
@@ -46,6 +51,9 @@ REQUIREMENTS FOR EACH OF THE TWO REFACTORINGS
    (what each refactoring is, the equivalence argument, suite result).  At the end leave the worktree CLEAN (`git checkout -- src tools`).
    If the Write tool refuses a .md file, create it with a shell here-document.
 6. In your final answer give each refactoring a short kebab-case name (3-6 words).
+
+REFACTORINGS ALREADY DONE FOR THIS PROPERTY IN EARLIER ROUNDS — choose other functions of the anchored code and/or other kinds of refactoring:
+{chr(10).join('- ' + t for t in done.get(pid, [])) or '- (none)'}
 
 Keep your final answer short (under 200 words): for A and for B, the name, the kind of refactoring, the function(s) touched, the suite result.
 """
